@@ -82,7 +82,8 @@ theorem preO : PreO KeepsCoherent := OnSt.preO (fun _ h => h) (fun h1 h2 h => h2
 theorem stepRel (m : Msg) : StepRel KeepsCoherent m where
   pre := preO
   write := fun line => Rel.transportWrite (fun _ h => h) line
-  setNode := fun _ _ => keeps_of_same (fun _ => rfl) (fun _ => rfl)
+  setNode := fun _ => keeps_of_same (fun _ => rfl) (fun _ => rfl)
+  alloc := keeps_of_same (fun _ => rfl) (fun _ => rfl)
   erase := fun _ _ _ => keeps_of_same (fun s => by split <;> rfl) (fun s => by split <;> rfl)
   mark := keeps_of_same (fun _ => rfl) (fun _ => rfl)
   unmark := keeps_of_same (fun s => by split <;> rfl) (fun s => by split <;> rfl)
@@ -93,7 +94,7 @@ theorem park_keeps (m : Msg) : Rel KeepsCoherent (parkMod m) := keeps_of_same (f
 /-- **Coherence is an invariant of receiving**, whatever the line, the outcome (also a rejected
 version report or any other error) and the write faults. -/
 theorem coherent_recv (env : Env) (line : Str) (w : W) (h : Coherent w.st) : Coherent (recv env line w).2.st :=
-  (rel_recv preO stepRel (ParkOK.of_all park_keeps) env line).step w h
+  (rel_recv preO (fun _ m _ => stepRel m) (ParkOK.of_all park_keeps) env).step w h
 
 theorem coherent_send (obj : Option Msg) (b : Bool) (w : W) (h : Coherent w.st) : Coherent (apiSend obj b w).2.st :=
   (rel_apiSend (stepRel default) park_keeps obj b).step w h
